@@ -2317,6 +2317,11 @@ impl Connection {
         ecn: Option<EcnCodepoint>,
         partial_decode: PartialDecode,
     ) {
+        if partial_decode.is_0rtt() && self.side.is_client() {
+            // Only clients send 0-RTT packets, and the 0-RTT keys only protect that direction
+            debug!("dropping 0-RTT packet received by client");
+            return;
+        }
         if let Some(decoded) = packet_crypto::unprotect_header(
             partial_decode,
             &self.spaces,
